@@ -13,7 +13,7 @@ from flax import core
 from flax.core import lift as L, meta, axes_scan
 
 from harness.c02 import RngStub
-from vf.xh import pick, Reject
+from vf.xh import with_real_dicts, pick, Reject
 
 PN = 'layers'
 KEY = jax.random.key(0)    # typed key created outside the symbolic tracer
@@ -155,6 +155,7 @@ def _ins(t, k, v):
 AXES = [0, 1, 2, -1, -2]
 
 
+@with_real_dicts
 def lift_metadata(tr, ka, kb, mode_a, mutable_b, extra_in, reverse):
   """tr 0: lift.vmap, 1: lift.scan.  'params' is stacked along AXES[ka] (mode_a 0:
   plain int, 1: lift.Out at init / lift.In at apply), 'stats' along AXES[kb]; an
